@@ -27,7 +27,7 @@ type c08Desc struct {
 	NExt    int    `json:"extensions"`
 }
 
-var c08Prefixes = []string{"none", "healthy1", "healthy3", "initerror", "rtcrash", "rtcrashidle", "extcrash", "timeout", "extiniterror", "extexiterror", "internal", "doublenext", "midinit", "useragent", "oversize", "extstall"}
+var c08Prefixes = []string{"none", "healthy1", "healthy3", "initerror", "rtcrash", "rtcrashidle", "extcrash", "timeout", "extiniterror", "extexiterror", "internal", "doublenext", "midinit", "useragent", "oversize", "extstall", "shutdownexiterror"}
 var c08Suffixes = []string{"healthy2", "subs", "initerror", "crash", "errorresp"}
 
 func genC08(tier string, seed int64) []Case {
@@ -78,7 +78,7 @@ func genC08(tier string, seed int64) []Case {
 		for _, p := range c08Prefixes {
 			for _, s := range c08Suffixes {
 				for _, n := range []int{0, 1} {
-					if n == 0 && strings.HasPrefix(p, "ext") || n == 0 && (p == "midinit" || p == "doublenext") {
+					if n == 0 && strings.HasPrefix(p, "ext") || n == 0 && (p == "midinit" || p == "doublenext" || p == "shutdownexiterror") {
 						continue // these prefixes need an extension
 					}
 					add(c08Desc{Prefix: p, Trigger: []string{"auto", "explicit"}[n], Suffix: s, NExt: n})
@@ -292,6 +292,15 @@ func c08Instance(c *Ctx, d c08Desc, _ bool) *c08Result {
 					}()
 					return nil
 				}
+			case "shutdownexiterror":
+				// healthy during invocations; on the SHUTDOWN event of the teardown it reports an exit error and leaves
+				o.OnEvent = func(p *vh.Proc, pt *vh.Party, n int, ev *vh.Resp) *vh.Exit {
+					if parseExtEvent(ev.Body).EventType == "SHUTDOWN" {
+						pt.ExtExitError(pt.ID(), "Extension.TeardownExit")
+						return &vh.Exit{Code: 6}
+					}
+					return nil
+				}
 			case "extstall":
 				o.OnEvent = func(p *vh.Proc, pt *vh.Party, n int, ev *vh.Resp) *vh.Exit { return Stall(p) }
 				o.IgnoreTerm = true
@@ -378,7 +387,7 @@ func c08Instance(c *Ctx, d c08Desc, _ bool) *c08Result {
 			time.Sleep(2 * time.Millisecond)
 		}
 		needExplicit = true
-	case "healthy1", "healthy3", "internal", "doublenext", "useragent", "oversize":
+	case "healthy1", "healthy3", "internal", "doublenext", "useragent", "oversize", "shutdownexiterror":
 		n := 1
 		if d.Prefix == "healthy3" {
 			n = 3
